@@ -485,14 +485,14 @@ def check_c03(ctx):
 def replay_c03(ctx, case):
     core.build_harness()
     c = case["case"]
+    if c.get("kind") == "parser":
+        from . import p_parser
+        return p_parser.replay(ctx, case, "C03")
     pin = os.path.join(ctx.work, "in.ndjson")
     pprog = os.path.join(ctx.work, "programs.ndjson")
     pout = os.path.join(ctx.work, "calls.ndjson")
     core.write_ndjson(pin, [dict(text=c["text"])])
     core.write_ndjson(pprog, [dict(prog=p) for p in STANDARD_PROGRAMS] + [dict(prog=[k["c"] for k in c["calls"]])])
-    if c.get("kind") == "parser":
-        from . import p_parser
-        return p_parser.replay(ctx, case, "C03")
     core.run_harness(ctx, ["calls", "--in", pin, "--programs", pprog, "--out", pout, "--ext", "none,all,compat,2,1770,3786,3298,64,2730",
                            "--conv", "e,b,x", "--fixed", "4"])
     obs = core.read_ndjson(pout)
